@@ -36,6 +36,29 @@ Qed.
 Lemma name_cmp_lcmp a b : name_cmp a b = lcmp Z.compare a b.
 Proof. revert b; induction a as [|x a IH]; intros [|y b]; simpl; try reflexivity. rewrite IH; reflexivity. Qed.
 
+
+(* strong induction principle for the nested type *)
+Section ValInd.
+Variable P : val -> Prop.
+Hypothesis Hnum : forall n, P (VNum n).
+Hypothesis Htup : forall l, Forall (fun p => P (snd p)) l -> P (VTup l).
+Hypothesis Hset : forall l, Forall P l -> P (VSet l).
+Fixpoint val_ind' (v : val) : P v :=
+  match v with
+  | VNum n => Hnum n
+  | VTup l => Htup l ((fix go (l : list (name * val)) : Forall (fun p => P (snd p)) l :=
+                         match l with
+                         | [] => Forall_nil _
+                         | p :: l' => Forall_cons p (val_ind' (snd p)) (go l')
+                         end) l)
+  | VSet l => Hset l ((fix go (l : list val) : Forall P l :=
+                         match l with
+                         | [] => Forall_nil _
+                         | x :: l' => Forall_cons x (val_ind' x) (go l')
+                         end) l)
+  end.
+End ValInd.
+
 (* the bundle of order properties for a triple *)
 Definition ordR {A} (cmp : A -> A -> comparison) (a b c : A) : Prop :=
   cmp a a = Eq /\
